@@ -19,7 +19,9 @@ def claim(pid, category, text, note, technique):
 claim("C02", "exploration",
       "abstract expression trees (all depth-2 operator triples, associativity chains, random trees, model contexts, "
       "literal edge values incl. decimal literals beside double midpoints) rendered from a reference operator table and "
-      "compared with the tree the real parser built under both syntax switches, each parse under ASan+UBSan in a forked child",
+      "compared with the tree the real parser built under both syntax switches; identifier binding under shadowing (names "
+      "re-declared in function bodies, nested blocks, iteration and select binders, parameters) predicted by the scope rule; "
+      "each parse under ASan+UBSan in a forked child",
       "reference operator table written from the statement; CPython float() for literals; held = on the cases run",
       "runtime monitoring: reference-model comparison of recorded parse trees (generated inputs, sanitizer build)")
 claim("C18", "exploration",
@@ -41,23 +43,27 @@ claim("C01", "exploration",
 claim("C03", "exploration",
       "every accepted generated expression (typed and raw) and every query form is printed by the library, re-parsed "
       "in the same scope and compared (dump and second print); failures are shrunk to the smallest construct; constants cover "
-      "17-digit and exponent-only doubles, INT_MIN, escaped strings",
+      "17-digit and exponent-only doubles, INT_MIN, escaped strings; both nestings of all same-level operator pairs; dynamic-template "
+      "and constant-bound query forms",
       "self-consistency oracle (first parse vs parse of printed text); generators cover operators, not all programs",
       "runtime monitoring: print/re-parse round-trip monitor over recorded trees (sanitizer build)")
 claim("C04", "exploration",
       "random accepted abstract models rendered to XML (shuffled labels, random ids) and compared field by field with "
       "the document at builder level and after static analysis, through parse_XML_buffer/file/fd; dynamic templates, CDATA "
-      "text blocks, keyword-shaped and special location names, weighted location edges, branchpoint-to-branchpoint edges",
+      "text blocks, keyword-shaped and special location names, weighted location edges, branchpoint-to-branchpoint edges, layout around "
+      "names, labels of kinds the reader does not keep",
       "generator covers the constructs listed in the evidence rule; abstract model is the oracle",
       "runtime monitoring: reference-model comparison of the built Document (generated models, sanitizer build)")
 claim("C05", "exploration",
       "the same abstract model rendered to XML and to XTA; canonical documents, diagnostics and supported-method "
-      "verdicts of both front ends compared, including models with one injected semantic error and 3.x-syntax models",
+      "verdicts of both front ends compared, including models with one injected semantic error (incl. duplicate location names "
+      "carrying labels) and 3.x-syntax models",
       "only constructs expressible in both formats; actname excluded (no XTA syntax)",
       "runtime monitoring: differential comparison of two front ends on generated models (sanitizer build)")
 claim("C08", "exploration",
       "the invariant walker (harness/invariants.cpp) visits every reachable object after every parse of valid, "
-      "error-recovered and exception-ending XML and XTA inputs (incl. edge endpoints naming non-locations), under ASan so "
+      "error-recovered and exception-ending XML and XTA inputs (incl. edge endpoints naming non-locations, process sets listed in the "
+      "system line through chains of partial instantiations), under ASan so "
       "that dangling user-data pointers are reports",
       "public API traversal only; LSC-specific containers are not walked",
       "runtime monitoring: structural invariant walker at quiescent points after each parse (sanitizer build)")
@@ -65,7 +71,7 @@ claim("C08", "exploration",
 claim("C19", "exploration",
       "algebraic laws of clone_deeper/subst/equal/get_size evaluated on every sub-expression of generated "
       "expressions, queries and model labels inside the ASan build, with single-node perturbations built through "
-      "the public factories; every cloning entry point must return an independent tree",
+      "the public factories; every cloning entry point (incl. the two-frame overload on edge labels) must return an independent, equal tree",
       "laws are checked on parsed trees only; hook H2 exposes the stored child count",
       "runtime monitoring: law checker over live expression trees (assertions on hooked state, sanitizer build)")
 claim("C20", "exploration",
@@ -132,13 +138,14 @@ claim("C09", "exploration",
       "runtime monitoring: metamorphic comparison of recorded results of original and rewritten inputs")
 claim("C15", "exploration",
       "every unit (parse call with its input) recorded alone in a fresh process, then replayed inside random sequences "
-      "of 2..8 calls in one process (units incl. chained XTA transitions over shared names and over-long identifiers), a "
+      "of 2..8 calls in one process (units incl. chained XTA transitions over shared names, over-long identifiers, not-well-formed and "
+      "incomplete XML, unknown characters; queries on an older document in mid-sequence), a "
       "quarter with the global position counter seeded near 2^31/2^32; results "
       "compared field by field except absolute positions",
       "fork gives each recording a pristine process image; the counter is seeded through the exported global",
       "runtime monitoring: history independence monitor (sequence vs fresh-process recording of the same call)")
 claim("C16", "fault_enumeration",
-      "one fault (syntactic, builder-level semantic or type-level) per non-declaring label / declaration of generated models; document compared with the fault-free "
+      "one fault (syntactic incl. abandoned quantifiers, builder-level semantic or type-level) per non-declaring label / declaration of generated models (select label first or last); document compared with the fault-free "
       "parse at the same stage (builder level, and after static analysis for type-level faults) with the faulted "
       "label masked; every diagnostic path compared with the label's path",
       "differential against the fault-free parse; document-wide summary flags belong to the faulted label",
